@@ -93,7 +93,7 @@ func (h *H[T]) Ops() []seqmc.Op {
 		ops = append(ops, seqmc.Op{Name: "Remove", A: v})
 	}
 	if h.P.Clone {
-		ops = append(ops, seqmc.Op{Name: "Clear"}, seqmc.Op{Name: "Clone"})
+		ops = append(ops, seqmc.Op{Name: "Clear"}, seqmc.Op{Name: "Clone"}, seqmc.Op{Name: "CloneMutate"})
 	}
 	return ops
 }
@@ -170,39 +170,52 @@ func (h *H[T]) Apply(op seqmc.Op) *seqmc.Fail {
 		if co.Len != orig.Len || !reflect.DeepEqual(co.In, orig.In) {
 			return seqmc.Failf("Clone:contents", "Clone of %+v has contents %+v", orig, co)
 		}
-		// shares no state: mutate a clone step by step, the original must keep its
-		// fingerprint after every single step, and vice versa
-		keyOld := fp.Of(&old)
-		c2 := old.Clone()
-		step := func(t *avl.Tree[T], i int) {
-			switch {
-			case i == 0:
-				t.Add(h.mk(h.P.U - 1))
-			case i == 1:
-				t.Add(h.mk(0))
-			case i-2 < h.P.U:
-				t.Remove(h.mk(i - 2))
-			default:
-				t.Clear()
+		// shares no state, judged by what can be OBSERVED (sharing that no sequence of calls can see -
+		// copy-on-write, a common allocator - is not a defect): the old tree is driven through every
+		// kind of mutation, the clone's observers must not move, and the search CONTINUES on the clone
+		// with the mutated original still alive, so damage that only shows later is found in the
+		// successors of this state (its fingerprint is part of the state key)
+		// (three holders at a time: a second clone of the old tree is mutated first, then the old tree)
+		c3 := old.Clone()
+		for _, victim := range []*avl.Tree[T]{&c3, &old} {
+			for i := 0; i <= h.P.U+2; i++ {
+				h.cloneStep(victim, i)
+				if now := h.observe(); !reflect.DeepEqual(now, co) {
+					return seqmc.Failf("Clone:shares-state", "mutation %d of another copy changed this clone: %+v -> %+v", i, co, now)
+				}
 			}
 		}
-		for i := 0; i <= h.P.U+2; i++ {
-			step(&c2, i)
-			if fp.Of(&old) != keyOld {
-				return seqmc.Failf("Clone:shares-state", "mutation %d of a clone changed the original tree", i)
-			}
-		}
-		keyClone := fp.Of(&h.T)
-		for i := 0; i <= h.P.U+2; i++ {
-			step(&old, i)
-			if fp.Of(&h.T) != keyClone {
-				return seqmc.Failf("Clone:shares-state", "mutation %d of the original changed its clone", i)
+	case "CloneMutate":
+		// the other direction: a clone and the clone's clone are driven through every kind of mutation;
+		// the search continues on the ORIGINAL
+		before := h.observe()
+		c2 := h.T.Clone()
+		c3 := c2.Clone()
+		for _, victim := range []*avl.Tree[T]{&c2, &c3} {
+			for i := 0; i <= h.P.U+2; i++ {
+				h.cloneStep(victim, i)
+				if now := h.observe(); !reflect.DeepEqual(now, before) {
+					return seqmc.Failf("Clone:shares-state", "mutation %d of a clone changed the original tree: %+v -> %+v", i, before, now)
+				}
 			}
 		}
 	default:
 		panic("unknown op " + op.Name)
 	}
 	return nil
+}
+
+func (h *H[T]) cloneStep(t *avl.Tree[T], i int) {
+	switch {
+	case i == 0:
+		t.Add(h.mk(h.P.U - 1))
+	case i == 1:
+		t.Add(h.mk(0))
+	case i-2 < h.P.U:
+		t.Remove(h.mk(i - 2))
+	default:
+		t.Clear()
+	}
 }
 
 func (h *H[T]) Key() string { return fp.Of(&h.T) }
@@ -709,7 +722,9 @@ func GoTest(p Params, str bool) func(path []seqmc.Op) string {
 				sb.WriteString("\ttr.Clear()\n")
 				model = nil
 			case "Clone":
-				sb.WriteString("\ttr = tr.Clone()\n")
+				sb.WriteString("\told := tr\n\ttr = tr.Clone()\n\told.Add(0)\n\told.Clear() // the original is mutated, the clone must not notice\n")
+			case "CloneMutate":
+				sb.WriteString("\t{\n\t\tc := tr.Clone()\n\t\tc.Add(0)\n\t\tc.Clear() // a clone is mutated, the original must not notice\n\t}\n")
 			}
 		}
 		vals := make([]string, len(model))
